@@ -10,7 +10,8 @@ PROP = dict(
                        "Comdex.C03.inactive_price_rejects",
                        "Comdex.C03.ratioOk_exact", "Comdex.C03.ratioOk_exact_scales", "Comdex.C03.ratioOk_exact_tight",
                        "Comdex.C03.create_accepted_ratio_exact", "Comdex.C03.draw_accepted_ratio_exact",
-                       "Comdex.C03.withdraw_accepted_ratio_exact"],
+                       "Comdex.C03.withdraw_accepted_ratio_exact",
+                       "Comdex.C03.ceiling_excess_never_increases", "Comdex.C03.floor_deficit_never_increases", "Comdex.C03.limits_kept_from"],
     harness_tests=["TestC01"],
     monitors=["ratio_ok", "ratio_exact", "floor_kept", "ceiling_kept", "ceiling_backed", "price_fail_closed"],
     trusted_base=[KERNEL_TB, HARNESS_TB, DEC_TB, VAULT_TB],
